@@ -186,6 +186,10 @@ def canaries(chk, prog):
 
 
 def run(chk, prog, tier):
+    # objects built as versors are exactly normalised: that is what makes `inverse == conjugate` (the versor arm of the laws below) valid (rule shared with C11)
+    from props.c11 import quat_ctor
+    quat_ctor(chk, prog, QUAT + "::Quaternion.__new__", "versor")
+    quat_ctor(chk, prog, QUAT + "::QuaternionArray.__new__", "versors")
     run_laws(chk, prog)
     run_inverse(chk, prog)
     run_scalar_last(chk, prog)
